@@ -95,13 +95,13 @@ def build_pools(ctx, lib):
     srcs = xml["valid"] + xml["large"]
     res = lib.many([cli.lib_line("x:3:%d:1:0" % k, d) for d in srcs for k in (0, 1)])
     for r in res:
-        code, _, out = parse_lib(r)
+        code, _, out = parse_lib(r) or (1, b"", b"")
         if code == 0 and out:
             (wb["large"] if len(out) > 1000 else wb["valid"]).append(out)
     for size in (999, 1000, 1001, 2000, 2001, 4000):
         n = size
         for _ in range(6):
-            code, _, out = lib.conv("x:3:0:0:0", wml_doc(b"z" * n))
+            code, _, out = lib.conv("x:3:0:0:0", wml_doc(b"z" * n)) or (1, b"", b"")
             if code != 0 or len(out) == size:
                 break
             n += size - len(out)
@@ -496,6 +496,7 @@ def run(ctx):
     p2, _ = common.run_lines(driver, mlines)
 
     concrete, corr, soft, pending = [], [], [], set()
+    lib_unavailable = 0
     kinds, nontrivial, outcomes = {}, set(), {}
     spec_bad = []
     for c, o, pm, orc, ml, lr, sl in zip(cases, obs, parsed, orcs, p2, mlib, sp):
@@ -508,6 +509,14 @@ def run(ctx):
             if isinstance(r, bytes):
                 olr = parse_lib(lib.memo.get(cli.lib_line(orc["opts"], r)))
         cj = cli.case_json(c)
+        need_lib = isinstance(orc, dict) and orc["file"] is not None and isinstance(selected_input(c, orc["file"]), bytes)
+        need_mlib = isinstance(pm, dict) and pm["file"] is not None and isinstance(selected_input(c, pm["file"]), bytes)
+        if (need_lib and olr is None) or (need_mlib and lr is None):
+            # the in-process library call itself died (a matter for C01/C02): only the crash checks apply to the tool
+            lib_unavailable += 1
+            for b in judge(ctx, c, o, None, None, ht):
+                concrete.append({"what": b, "case": cj, "rc": o["rc"], "stderr": o["stderr"][-1500:], "note": "the in-process library call crashed as well"})
+            continue
         for b in judge(ctx, c, o, orc, olr, ht):
             if b.startswith("PENDING:"):
                 pending.add(b[8:])
@@ -574,6 +583,7 @@ def run(ctx):
         "correspondence_disagreements": len(corr),
         "spec_vs_python_getopt_disagreements": len(spec_bad),
         "max_library_error_code": maxerr,
+        "in_process_library_call_unavailable": lib_unavailable,
         "pending_findings": sorted(pending),
         "partial": "real stdio after a successful fopen (short writes, fclose errors, full disk), signals, allocation failure inside the tools",
     })
